@@ -14,7 +14,7 @@ from pulsarbat.pulsar.phase import Phase, FractionalPhase
 from harness.common import float_lit, zlit, listlit
 
 VFILES = ['Model/Phase2.v', 'Gen/GenPhase.v', 'Proofs/PhaseGen.v', 'Proofs/TwoSumExact.v', 'Proofs/Floor.v', 'Proofs/DayFrac.v', 'Proofs/DayFrac3.v', 'Proofs/PhaseAdd.v',
-          'Proofs/PhaseCmp.v', 'Proofs/PhaseMore.v', 'Proofs/DayFracTail.v', 'Proofs/FoldHalf.v', 'Proofs/DayFracFold.v', 'Proofs/TwoProduct.v', 'Proofs/PhaseMul.v', 'Proofs/PhaseAbs.v', 'Proofs/DivChain.v', 'Proofs/PhaseDiv.v', 'Model/PhaseDivmod.v', 'Model/PhaseOrd.v', 'Proofs/PhaseArgmin.v', 'Proofs/PhaseSort.v', 'Proofs/PhaseRemainder.v', 'Proofs/PhaseDivmodProofs.v', 'Proofs/PhaseDivmodFloor.v', 'Proofs/FmodSpec.v', 'Proofs/FloorDivSpec.v', 'Proofs/PhaseDivmodFinal.v', 'Gen/GenPhaseOrd.v', 'Proofs/PhaseOrdGen.v', 'Props/C07.v']
+          'Proofs/PhaseCmp.v', 'Proofs/PhaseMore.v', 'Proofs/PhaseAddWide.v', 'Proofs/DayFracTail.v', 'Proofs/FoldHalf.v', 'Proofs/DayFracFold.v', 'Proofs/TwoProduct.v', 'Proofs/PhaseMul.v', 'Proofs/PhaseAbs.v', 'Proofs/DivChain.v', 'Proofs/PhaseDiv.v', 'Model/PhaseDivmod.v', 'Model/PhaseOrd.v', 'Proofs/PhaseArgmin.v', 'Proofs/PhaseSort.v', 'Proofs/PhaseRemainder.v', 'Proofs/PhaseDivmodProofs.v', 'Proofs/PhaseDivmodFloor.v', 'Proofs/FmodSpec.v', 'Proofs/FloorDivSpec.v', 'Proofs/PhaseDivmodFinal.v', 'Gen/GenPhaseOrd.v', 'Proofs/PhaseOrdGen.v', 'Props/C07.v']
 REAL_AX = {'ClassicalDedekindReals.sig_forall_dec', 'ClassicalDedekindReals.sig_not_dec',
            'FunctionalExtensionality.functional_extensionality_dep', 'Classical_Prop.classic', 'float'}
 TOL = Fr(1, 2 ** 52)
